@@ -133,6 +133,27 @@ def prim_specs():
     ]
 
 
+class AttrSpec(object):
+    """An XmlAttribute(T) member: an attribute of the parent element in XML, an
+    ordinary key in the dict and flat protocols."""
+    kind = 'xmlattr'
+
+    def __init__(self, item):
+        self.item = item
+        self.name = 'attr_' + item.name
+        self.cls = None
+
+    def build(self):
+        if self.cls is None:
+            from spyne.model.complex import XmlAttribute
+            base = self.item.build() if self.item.cls is None else self.item.cls
+            self.cls = XmlAttribute(base)
+        return self.cls
+
+    def gen(self, rng):
+        return self.item.gen(rng)
+
+
 class MultiSpec(object):
     """A primitive member that may occur several times (max_occurs > 1)."""
     kind = 'multi'
@@ -284,6 +305,8 @@ class Universe(object):
         pfields.append(('a_arr', ArraySpec(ints)))
         multi_uni = [s for s in prim_specs() if s.name == 'uni'][0]
         pfields.append(('a_multi', MultiSpec(multi_uni)))
+        attr_int = [s for s in prim_specs() if s.name == 'int_rng'][0]
+        pfields.append(('a_attr', AttrSpec(attr_int)))
         self.P = ComplexSpec('P', ns_p, pfields)
         for s in chosen:
             s.build()
@@ -355,6 +378,14 @@ class Universe(object):
                                   ('extra', s_u2)])
         self.item1.build()
         self.item2.build()
+        # a DateTime with a custom text format (not usable under SOAP, which
+        # insists on ISO 8601, nor with the lxml validator: xs:dateTime)
+        s_fmt = Spec('dt_fmt', lambda: DateTime(dt_format='%Y-%m-%d %H:%M'),
+                     lambda r: _g_dt(r).replace(second=0, microsecond=0),
+                     lambda v: v.strftime('%Y-%m-%d %H:%M'),
+                     js=lambda v: v.strftime('%Y-%m-%d %H:%M'))
+        s_fmt.build()
+        M['fmt'] = Method('fmt', [('when', s_fmt)], s_uni)
         it_spec = ArraySpec(s_int)
         it_spec.cls = Iterable(Integer)
         M['total'] = Method('total', [('xs', it_spec)], s_int)
@@ -432,6 +463,11 @@ class Universe(object):
             ctl.hit('fn', 'strict')
             return _num(a) + (len(s) if isinstance(s, str) else 0)
 
+        def f_fmt(ctx, when):
+            ctl.calls.append(('fmt', 'enter'))
+            ctl.hit('fn', 'fmt')
+            return u'%s' % (when,)
+
         def f_total(ctx, xs):
             ctl.calls.append(('total', 'enter'))
             ctl.hit('fn', 'total')
@@ -473,6 +509,7 @@ class Universe(object):
 
         ns = {}
         ns['strict'] = rpc(s_rng.cls, s_pat.cls, _returns=Integer)(f_strict)
+        ns['fmt'] = rpc(s_fmt.cls, _returns=Unicode)(f_fmt)
         ns['total'] = rpc(it_spec.cls, _returns=Integer)(f_total)
         ns['item1'] = rpc(self.item1.cls, _returns=Unicode)(f_item1)
         ns['item2'] = rpc(self.item2.cls, _returns=Unicode)(f_item2)
@@ -665,6 +702,10 @@ def _xml_value(parent, ns, name, spec, value, nil=False):
         for s in chain:
             cns = s.cls.get_namespace()
             for fn, fs in s.fields:
+                if fs.kind == 'xmlattr':
+                    if value.get(fn) is not None:
+                        el.set(fn, fs.item.text(value[fn]))
+                    continue
                 if fn in value:
                     _xml_value(el, cns, fn, fs, value[fn], nil)
                 elif nil and fs.kind == 'prim':
@@ -699,6 +740,8 @@ def _dict_value(spec, value, wrappers, raw_bytes=False):
         return d
     if spec.kind in ('array', 'multi'):
         return [_dict_value(spec.item, v, wrappers, raw_bytes) for v in value]
+    if spec.kind == 'xmlattr':
+        return _dict_value(spec.item, value, wrappers, raw_bytes)
     raise ValueError(spec.kind)
 
 
@@ -711,6 +754,8 @@ def _flat_value(out, prefix, spec, value):
         for fn, fs in spec.all_fields():
             if fn in value:
                 _flat_value(out, prefix + '.' + fn, fs, value[fn])
+    elif spec.kind == 'xmlattr':
+        out.append((prefix, spec.item.text(value)))
     elif spec.kind == 'multi':
         for item in value:
             out.append((prefix, spec.item.text(item)))
